@@ -86,6 +86,8 @@ class Interner:
 
 def run(ctx):
     uj = core.use_repo()
+    import translate_traceback
+    translate_traceback.check(ctx)    # get_stack_frame / render_symbolic_traceback compiled from the source and linked to Obs/Traceback.v by theorems
     import uberjob
     from uberjob._util import traceback as tb
     from uberjob.stores import LiteralSource
